@@ -17,8 +17,8 @@ RULE = (
     "non-trivial = >=2 startpoints and >=1 multi-input gate; distinct = canonical circuit + assumptions"
 )
 BUDGET = {
-    "quick": {"workers": 16, "cases": 70, "secs": 45, "min_cases": 500},
-    "thorough": {"workers": 16, "rounds": 4, "cases": 220, "secs": 240, "min_cases": 5000},
+    "quick": {"workers": 16, "cases": 140, "secs": 60, "min_cases": 1120},
+    "thorough": {"workers": 16, "rounds": 4, "cases": 400, "secs": 420, "min_cases": 12800},
 }
 ANCHORS = ["sat:model_count", "props:signal_probability", "sat:approx_model_count"]
 
